@@ -394,7 +394,8 @@ class RSocketBase(RSocket, RSocketInternal):
             next_fragment = next_frame_source.get_next_fragment(transport.requires_length_header())
 
             if next_fragment.flags_follows:
-                self._send_queue.put_nowait(self._send_queue.get_nowait())  # cycle to next frame source in queue
+                if not self._is_stream_queued_behind_head(next_frame_source.stream_id):
+                    self._send_queue.put_nowait(self._send_queue.get_nowait())  # cycle to next frame source in queue
             else:
                 next_frame_source.get_next_fragment(
                     transport.requires_length_header())  # workaround to clean-up generator.
@@ -405,6 +406,12 @@ class RSocketBase(RSocket, RSocketInternal):
         else:
             self._send_queue.get_nowait()
             yield next_frame_source
+
+    def _is_stream_queued_behind_head(self, stream_id: int) -> bool:
+        # A partially sent frame must not be cycled behind later frames of its own stream:
+        # they would reach the wire between its fragments.
+        return self._send_queue.contains_after_head(
+            lambda frame_source: getattr(frame_source, 'stream_id', None) == stream_id)
 
     async def _sender(self):
         try:
